@@ -63,6 +63,54 @@ fn corpus() -> Vec<String> {
     out
 }
 
+const STR_PAIRS: [(&str, &str); 11] = [
+    ("abc", "abc"), ("ab", "abc"), ("abc", "ab"), ("abc", "abd"), ("abd", "abc"), ("abcx", "abdy"), ("abdy", "abcx"),
+    ("x", "abc"), ("", "a"), ("a", ""), ("", ""),
+];
+const STR_OPS: [(&str, fn(&str, &str) -> bool); 6] = [
+    ("==", |a, b| a.as_bytes() == b.as_bytes()),
+    ("!=", |a, b| a.as_bytes() != b.as_bytes()),
+    ("<", |a, b| a.as_bytes() < b.as_bytes()),
+    ("<=", |a, b| a.as_bytes() <= b.as_bytes()),
+    (">", |a, b| a.as_bytes() > b.as_bytes()),
+    (">=", |a, b| a.as_bytes() >= b.as_bytes()),
+];
+
+/// string comparisons in operand positions, each followed in the same thread by further string operations whose
+/// operands are fresh temporaries on the operand stack; expected output from byte-wise comparison in Rust
+fn string_templates(rng: &mut Rng, n: usize) -> Vec<(String, String, String)> {
+    let mut v = vec![];
+    let pre = "fn show(b: bool, s: string) -> string {\n  s .. \":\" .. b\n}\nfn pick(b: bool, n: int, s: string) -> int {\n  if b { n } else { if s == \"\" { n + 1 } else { n + 2 } }\n}\n";
+    let all: Vec<(usize, usize)> = (0..STR_PAIRS.len()).flat_map(|p| (0..6).map(move |o| (p, o))).collect();
+    for k in 0..n {
+        // every (pair, operator) at least once, then random ones
+        let (p1, o1) = if k < all.len() { all[k] } else { (rng.below(11) as usize, rng.below(6) as usize) };
+        let (p2, o2) = (rng.below(11) as usize, rng.below(6) as usize);
+        let ((a, b), (c, d)) = (STR_PAIRS[p1], STR_PAIRS[p2]);
+        let ((n1, f1), (n2, f2)) = (STR_OPS[o1], STR_OPS[o2]);
+        let (r1, r2) = (f1(a, b), f2(c, d));
+        let (s, t) = (*rng.pick(&["p", "qq", ""]), *rng.pick(&["r", "st", ""]));
+        let src = format!(
+            "{pre}println(show(({a:?} {n1} {b:?}), ({s:?} .. {t:?})))\n\
+             println((({a:?} {n1} {b:?}) == ({c:?} {n2} {d:?})))\n\
+             println(\"x\" .. (if ({a:?} {n1} {b:?}) {{ \"y\" }} else {{ \"n\" }}))\n\
+             println(pick((({a:?} .. \"\") {n1} (\"\" .. {b:?})) and ({c:?} {n2} {d:?}), 3, ({s:?} .. {t:?})))\n\
+             println((({a:?} {n1} {b:?}) or (({c:?} .. {s:?}) {n2} ({d:?} .. {s:?}))))\n\
+             println(\"done\")\n"
+        );
+        let st = format!("{s}{t}");
+        let exp = format!(
+            "{st}:{r1}\n{}\nx{}\n{}\n{}\ndone\n",
+            r1 == r2,
+            if r1 { "y" } else { "n" },
+            if r1 && r2 { 3 } else if st.is_empty() { 4 } else { 5 },
+            r1 || f2(&format!("{c}{s}"), &format!("{d}{s}")),
+        );
+        v.push((format!("{a:?} {n1} {b:?} / {c:?} {n2} {d:?}"), src, exp));
+    }
+    v
+}
+
 fn main() {
     let mut ctx = Ctx::from_env("C01");
     let base = probe_shapes(&mut ctx);
@@ -76,6 +124,33 @@ fn main() {
             ctx.count("replay:D21:faults");
         }
         _ => ctx.count("replay:D21:no-fault"),
+    }
+
+    // ---- string comparisons in operand positions (the resumable string instructions share progress registers)
+    let mut srng = Rng::new(ctx.rng.next());
+    let sts = string_templates(&mut srng, if ctx.quick() { 90 } else { 1500 });
+    let sres = par_map(&sts, |(_, src, _)| {
+        BUDGETS.iter().map(|b| run_program_opts(src, &RunOpts { budgets: vec![*b], max_steps: 1_000_000, files: vec![] })).collect::<Vec<_>>()
+    });
+    for ((name, src, exp), rs) in sts.iter().zip(sres) {
+        let mut bad: Option<String> = None;
+        for (b, r) in BUDGETS.iter().zip(rs.iter()) {
+            match &r.outcome {
+                Outcome::Done if &r.out == exp => {}
+                Outcome::Done => bad = Some(format!("budget {b}: output {:?}, expected {:?}", r.out, exp)),
+                o => bad = Some(format!("budget {b}: {} {:?} (output so far {:?})", o.tag(), match o { Outcome::Crash(m) => one_line(m), _ => String::new() }, r.out)),
+            }
+            if bad.is_some() {
+                break;
+            }
+        }
+        match bad {
+            None => ctx.count("strcmp-template:ok"),
+            Some(why) => {
+                ctx.count("strcmp-template:FAILS");
+                ctx.spec_fail(format!("string comparison in operand position ({name}): {why}\n{src}"));
+            }
+        }
     }
 
     // ---- (1) generated programs
